@@ -306,6 +306,11 @@ impl HeaderValue {
     }
 
     #[cfg(feature = "dkim")]
+    pub(crate) fn get_name(&self) -> &HeaderName {
+        &self.name
+    }
+
+    #[cfg(feature = "dkim")]
     pub(crate) fn get_raw(&self) -> &str {
         &self.raw_value
     }
